@@ -108,9 +108,25 @@ impl<T: Qcow2IoOps> Qcow2Dev<T> {
             return Ok(());
         };
 
-        // Clear the L2 entry to all zeros (unallocated state, reads-as-zero).
+        // With a backing file an all-zero L2 entry does not read as zero but
+        // falls through to the backing image, so the discarded cluster has to
+        // be left zero-flagged. Version 2 images have no zero flag: keep the
+        // cluster mapped there and just zero its host range.
+        let new_entry = if info.has_back_file() {
+            if self.header.read().await.version() < 3 {
+                let punch_len = host_count * info.cluster_size();
+                return self
+                    .call_fallocate(host_cluster, punch_len, Qcow2OpsFlags::FALLOCATE_ZERO_RANGE)
+                    .await;
+            }
+            L2Entry(1)
+        } else {
+            L2Entry(0)
+        };
+
+        // Clear the L2 entry (unallocated or zero-flagged state, reads-as-zero).
         let idx = split.l2_slice_index(info);
-        l2_table.set(idx, L2Entry(0));
+        l2_table.set(idx, new_entry);
         l2_handle.set_dirty(true);
         self.mark_need_flush(true);
         drop(l2_table);
